@@ -215,6 +215,8 @@ def run_ops(task):
 def judge_layout(lay):
     out = []
     fold = any(f.startswith("case") for f in lay.features)
+    if "case3" in lay.features:
+        fold = "all"
     for ic in (True, False):
         try:
             r, items = stream.read_all(lay.text, ignore_comments=ic)
